@@ -1,4 +1,5 @@
 import Originium.Model.Watermark
+import Originium.Model.WMTie
 /-! # C13 — the watermark never passes unfinished work and always catches up
 
 `run ms` is the state of the `process` goroutine after the FIFO message sequence `ms`
@@ -58,9 +59,67 @@ example : (WM2.run [.done 7]).doneUntil = 7 ∧
     (WM2.run [.begin 3, .begin 5, .done 5]).doneUntil = 0 ∧
     (WM2.run [.begin 3, .begin 5, .done 5, .done 3]).doneUntil = 5 := by decide
 
+
+/-! ### The Go code itself
+
+`GenWM.handle` is the body of the `case m := <-w.markC` branch of `WaterMark.process`, translated from `/repo` by
+`extract/gotrans.go` on every run; `WMTie.gstep` feeds it one message; `WMTie.rel_run` proves that its state and the
+model's state stay related for every message sequence. -/
+
+/-- for every sequence of messages, the translated handler computes the model: its `DoneUntil` is the model's, its heap
+    is the model's, the channels it has closed are exactly the waiters the model has released and the waiters parked in
+    its map are exactly the model's blocked waiters -/
+theorem C13_code_refines (ms : List Msg) :
+    let g := ms.foldl WMTie.gstep WMTie.ginit
+    g.du = (Watermark.run ms).core.doneUntil ∧ g.heap = (Watermark.run ms).core.heap ∧
+    (∀ t id, (t, id) ∈ (Watermark.run ms).waiters ↔ ∃ cs, (t, cs) ∈ g.waiters ∧ id ∈ cs) ∧
+    (∀ id, id ∈ g.ev ↔ ∃ t, (t, id) ∈ (Watermark.run ms).released) := by
+  have h := WMTie.rel_run ms
+  exact ⟨h.du, h.heap, h.wait, h.rel⟩
+
+/-- the properties of the model, read off the translated code: DoneUntil never decreases; it moves from below `t` to `t`
+    or beyond only when `t` has not been begun more often than finished; it has caught up once everything up to `t` is
+    finished -/
+theorem C13_code_doneUntil (ms : List Msg) (m : Msg) (t : Nat) :
+    (ms.foldl WMTie.gstep WMTie.ginit).du ≤ ((ms ++ [m]).foldl WMTie.gstep WMTie.ginit).du ∧
+    (∀ mk, m = .mark mk → (ms.foldl WMTie.gstep WMTie.ginit).du < t → t ≤ ((ms ++ [m]).foldl WMTie.gstep WMTie.ginit).du →
+      net t (marksOf ms ++ [mk]) ≤ 0) ∧
+    ((∃ mk ∈ marksOf ms, mk.ts = t) → (∀ s, s ≤ t → outstanding s (marksOf ms) = 0) → t ≤ (ms.foldl WMTie.gstep WMTie.ginit).du) := by
+  rw [(WMTie.rel_run ms).du, (WMTie.rel_run (ms ++ [m])).du]
+  refine ⟨C13_monotone ms m, ?_, C13_catches_up ms t⟩
+  intro mk hm hlo hhi
+  subst hm
+  exact C13_never_passes_msgs ms mk t hlo hhi
+
+/-- waiters in the translated code: a channel is closed only when DoneUntil has reached the waiter's index; a waiter
+    still in the map has an index above DoneUntil; a registered waiter is either parked in the map or closed, never lost -/
+theorem C13_code_wait (ms : List Msg) :
+    let g := ms.foldl WMTie.gstep WMTie.ginit
+    (∀ t cs, (t, cs) ∈ g.waiters → ∀ id ∈ cs, g.du < t) ∧
+    (∀ t id, Msg.wait t id ∈ ms → (∃ cs, (t, cs) ∈ g.waiters ∧ id ∈ cs) ∨ (id ∈ g.ev ∧ t ≤ g.du)) := by
+  have h := WMTie.rel_run ms
+  have w := winv_run ms
+  refine ⟨?_, ?_⟩
+  · intro t cs hcs id hid
+    have := w.blocked_ok (t, id) ((h.wait t id).mpr ⟨cs, hcs, hid⟩)
+    rw [h.du]; exact this
+  · intro t id hm
+    rcases w.complete t id hm with h1 | h1
+    · exact Or.inl ((h.wait t id).mp h1)
+    · refine Or.inr ⟨(h.rel id).mpr ⟨t, h1⟩, ?_⟩
+      rw [h.du]; exact w.released_ok (t, id) h1
+
+/-- non-vacuity: the translated handler run on concrete messages — `Begin 3, Begin 5, wait 4 (channel 9), Done 5, Done 3`
+    ends with DoneUntil 5, an empty heap, and channel 9 closed -/
+example : (let g := [Msg.mark (.begin 3), .mark (.begin 5), .wait 4 9, .mark (.done 5), .mark (.done 3)].foldl WMTie.gstep WMTie.ginit
+    (g.du, g.heap, g.ev)) = (5, [], [9]) := by decide
+
 #print axioms C13_monotone
 #print axioms C13_never_passes
 #print axioms C13_never_passes_msgs
 #print axioms C13_catches_up
 #print axioms C13_wait
+#print axioms C13_code_refines
+#print axioms C13_code_doneUntil
+#print axioms C13_code_wait
 end Props
